@@ -209,7 +209,7 @@ func (d *Driver) Lock(_ context.Context, name string, timeout time.Duration) (sc
 	if err != nil {
 		return nil, fmt.Errorf("sql/sqlite: invalid lock file format: parsing expiration date: %w", err)
 	}
-	if time.Unix(0, expires).After(time.Now()) {
+	if time.Unix(0, expires).After(simNow()) {
 		// Lock is still valid.
 		return nil, fmt.Errorf("sql/sqlite: lock on %q already taken", name)
 	}
@@ -253,7 +253,7 @@ func acquireLock(path string, timeout time.Duration) (schema.UnlockFunc, error) 
 	if err != nil {
 		return nil, fmt.Errorf("sql/sqlite: creating lockfile %q: %w", path, err)
 	}
-	if _, err := lock.Write([]byte(strconv.FormatInt(time.Now().Add(timeout).UnixNano(), 10))); err != nil {
+	if _, err := lock.Write([]byte(strconv.FormatInt(simNow().Add(timeout).UnixNano(), 10))); err != nil {
 		return nil, fmt.Errorf("sql/sqlite: writing to lockfile %q: %w", path, err)
 	}
 	defer lock.Close()
